@@ -554,6 +554,10 @@ def c01_targeted(r):
         lines.append(pkt_line("recv", ftpd("transfer/channel-7/uusdc", 1000, ORB, m)))
         lines.append(pkt_line("recv", ftpd("uatom", 1000, ORB, m)))
         lines.append(pkt_line("recv", ftpd("transfer/channel-7/uusdc", 1000, ORB.upper(), m)))
+    # coins that are not Noble-native, sent to the orbiter account with a perfectly valid payload: refused (refunded), never credited
+    for dn in scen.DENOM_GRID:
+        for m in (good_payloads := [memo(int_fwd(U[1])), memo(cctp_fwd(domain=0), [fee_action([(U[2], "b", 100)])])]):
+            lines.append(pkt_line("recv", ftpd(dn, 1000, ORB, m)))
     # every encoding of the packet's own fields: the same orbiter transfer spelled in ways a counterparty that does not
     # serialise canonically may produce (trailing bytes after the first JSON value, white space, repeated or escaped keys,
     # escaped values, reordered fields); whatever ICS-20 accepts as a transfer to the orbiter must go through the orbiter flow
@@ -570,6 +574,42 @@ def c01_targeted(r):
               esc_key, esc_val, dup1, dup2, reordered, spaced, base.replace(":", " : ", 2), "\ufeff" + base]:
         lines.append("deposit %s %s %d" % (hx(ORB_BYTES), hx("uusdc"), 3))
         lines.append(pkt_line("recv", v))
+    return lines
+
+
+def dry_lines(r, toks, n):
+    """operations executed on a branch of the state that is then dropped (drybegin … dryend: a transaction that fails at its end, a
+    simulation) leave no trace: whatever the module keeps — stores, and anything it might keep outside them — is as before"""
+    lines, _ = scen.base_setup()
+    tok = toks[0][0]
+    hist = scen.tuned_history(r, n, toks, p_admin=30, p_deposit=6, p_query=10, p_reimport=0)
+    out = []
+    i = 0
+    while i < len(hist):
+        if r.chance(1, 4):
+            k = r.range(1, 4)
+            out.append("drybegin")
+            out += hist[i:i + k]
+            if r.chance(1, 3):
+                out.append(msg_line("UpdateParams", AUTHORITY, str(r.choice([0, 5, 64]))))
+            out.append("dryend")
+            i += k
+        else:
+            out.append(hist[i])
+            i += 1
+        if r.chance(1, 10):
+            out += ["query Params", "query PausedProtocols", "query PausedActions", "export"]
+        if r.chance(1, 10):
+            out.append(orb_pkt("recv", 1000, cctp_fwd(domain=0, passthrough=b"\x01" * r.choice([0, 3, 30])), [fee_action([(U[3], "b", 50)])]))
+    lines += out
+    # a warp token created and used on a dropped branch, then its identifier assigned again to a token of another denomination
+    t3 = tok[:-8] + (2).to_bytes(8, "big")
+    lines += ["drybegin", "env hyp setup " + hx("uother"), "env hyp token %s %s" % (hx(t3), hx("uother")), "env hyp enroll %s 1 0" % hx(t3),
+              orb_pkt("recv", 1000, hyp_fwd(t3, domain=1), None, denom="uother"), "dryend",
+              "env hyp setup " + hx("uusdc"), "env hyp token %s %s" % (hx(t3), hx("uusdc")), "env hyp enroll %s 1 0" % hx(t3),
+              "deposit %s %s 5000" % (hx(ORB_BYTES), hx("uusdc")),
+              orb_pkt("recv", 1000, hyp_fwd(t3, domain=1), None, denom="uother"),
+              orb_pkt("recv", 1000, hyp_fwd(t3, domain=1), None, denom="uusdc"), "export"]
     return lines
 
 
@@ -604,7 +644,8 @@ class C01(Base):
         _, toks = scen.base_setup()
         sts = [Stream("S3-receiver-grid", c01_targeted(Rng(seed * 1000 + 1)), fields=f, oracle=c01_oracle),
                Stream("S3-bridge-refusals", c03_natural_lines(Rng(seed), toks), fields=f, oracle=c01_oracle),
-               Stream("S3-statistics-at-the-limit", stats_limit_lines(toks), fields=f, oracle=c01_oracle)]
+               Stream("S3-statistics-at-the-limit", stats_limit_lines(toks), fields=f, oracle=c01_oracle),
+               Stream("S3-dropped-branches", dry_lines(Rng(seed * 1000 + 101), toks, self.n(tier, 80, 300)))]
         sts += history_stream("S3-history", 1, tier, seed, 150, 600, f, c01_oracle)
         return sts
 
@@ -842,7 +883,9 @@ class C02(Base):
         _, toks = scen.base_setup()
         return history_stream("S3-ledger", 2, tier, seed, 200, 700, f, c02_oracle, p_admin=6, p_deposit=10, p_query=0, p_reimport=0) + \
             [Stream("S3-bridge-refusals", c03_natural_lines(Rng(seed), toks), fields=f, oracle=lambda st: c02_oracle(st) + c01_oracle(st)),
-             Stream("S3-statistics-at-the-limit", stats_limit_lines(toks), fields=f, oracle=lambda st: c02_oracle(st) + c01_oracle(st))]
+             Stream("S3-statistics-at-the-limit", stats_limit_lines(toks), fields=f, oracle=lambda st: c02_oracle(st) + c01_oracle(st)),
+             Stream("S3-dropped-branches", dry_lines(Rng(seed * 1000 + 102), toks, self.n(tier, 80, 300))),
+             Stream("S3-receiver-and-memo-grid", c01_targeted(Rng(seed * 1000 + 2)), fields=f, oracle=lambda st: c02_oracle(st) + c01_oracle(st))]
 
 
 # ----------------------------------------------------------------------------------------------- C03
@@ -903,6 +946,12 @@ def c03_natural_lines(r, toks):
         orb_pkt("recv", 2 * 10 ** 30 + 1, int_fwd(U[1]), ok_fee),                    # more than the escrow holds
         orb_pkt("recv", 10 ** 6, int_fwd(U[1]), ok_fee),                             # control
     ]
+    # fees that leave nothing (or exactly one unit) to forward, on every route: all-or-nothing at the boundary
+    for rt in (int_fwd(U[1]), cctp_fwd(domain=0), hyp_fwd(tok, domain=1)):
+        for A, es in [(10 ** 6, [(U[2], "b", 10000)]), (10 ** 6, [(U[2], "b", 5000), (U[3], "b", 5000)]), (1000, [(U[2], "a", 1000)]), (1000, [(U[2], "a", 999)]),
+                      (1000, [(U[2], "a", 1001)]), (10000, [(U[2], "b", 1), (U[3], "a", 9999)]), (10000, [(U[2], "b", 1), (U[3], "a", 9998)]),
+                      (1000, [(ORB, "a", 10)]), (1000, [(ORB, "b", 100), (U[2], "a", 5)])]:
+            lines.append(orb_pkt("recv", A, rt, [fee_action(es)]))
     return lines
 
 
@@ -952,7 +1001,9 @@ class C03(Base):
         return [Stream("S2-fault-enumeration", c03_fault_lines(r, toks, pairs=(tier == "thorough")), fields=f, oracle=c03_oracle),
                 Stream("S3-natural-failures", c03_natural_lines(r, toks), fields=f, oracle=c03_oracle),
                 Stream("S3-statistics-at-the-limit", stats_limit_lines(toks), fields=f, oracle=c03_oracle),
-                Stream("S2-panicking-externals", c03_panic_lines(toks), model=False, oracle=c03_oracle, note="implementation only: the model's fault oracle returns errors")]
+                Stream("S2-panicking-externals", c03_panic_lines(toks), model=False, oracle=c03_oracle, note="implementation only: the model's fault oracle returns errors"),
+                Stream("S3-dropped-branches", dry_lines(Rng(seed * 1000 + 103), toks, self.n(tier, 80, 300))),
+                Stream("S3-receiver-and-memo-grid", c01_targeted(Rng(seed * 1000 + 3)), fields=f, oracle=lambda st: c03_oracle(st) + c01_oracle(st))]
 
 
 # ----------------------------------------------------------------------------------------------- C05
@@ -1148,6 +1199,15 @@ def c06_lines(r, n):
               [fee1, swap_action(), fee2], [swap_action(), fee1, swap_action()], []]
     rules = [(1, 1, "uother"), (2, 1, "uother"), (1, 3, "uother"), (1, 1, "uusdc"), (3, 2, "uusdc"), (0, 1, "uother"), (1, 10 ** 7, "uother")]
     routes = [int_fwd(U[1]), cctp_fwd(domain=0)]
+    # the Hyperlane route, with a maximum fee in the running denomination, in another one, and none: the request carries the running amount
+    tokd = {d: t for (t, d) in toks}
+    for mf in (None, ("uusdc", 5000), ("uusdc", 0), ("uother", 7)):
+        for acts in ([], [fee1], [fee1, fee2]):
+            lines.append(orb_pkt("recvh", 10 ** 6, hyp_fwd(tokd["uusdc"], domain=1, fee=mf), acts, denom="uusdc"))
+            lines.append(orb_pkt("recv", 10 ** 6, hyp_fwd(tokd["uusdc"], domain=1, fee=mf), acts, denom="uusdc"))
+    lines.append("swapctl 2 1 " + hx("uother"))
+    for mf in (None, ("uother", 5000), ("uusdc", 5000)):
+        lines.append(orb_pkt("recvh", 10 ** 6, hyp_fwd(tokd["uother"], domain=1, fee=mf), [swap_action(), fee1], denom="uusdc"))
     for num, den, dn in rules:
         lines.append("swapctl %d %d %s" % (num, den, hx(dn)))
         for acts in orders:
@@ -1164,6 +1224,13 @@ def c06_lines(r, n):
                 lines.append(orb_pkt("recvh", 10 ** 6, rt, acts, denom=in_dn))
         # a transfer of that denomination sweeps it again
         lines.append(orb_pkt("recvh", 1000, int_fwd(U[1]), [], denom=out_dn))
+    # the dispatcher itself (component level, below the memo parser): the same rules hold for a payload handed to it directly
+    lines.append("swapctl 2 1 " + hx("uother"))
+    for acts in orders + [[fee1, fee1], [fee1, swap_action(), fee1], [swap_action(), fee2, swap_action()], [fee2, fee1, fee2]]:
+        for rt in routes:
+            lines.append("dispatchh %d %s %s" % (10 ** 6, hx("uusdc"), hx(memo(rt, acts))))
+    lines.append("dispatchh %d %s %s" % (10 ** 6, hx("uusdc"), hx("{\"orbiter\":{\"pre_actions\":[]}}")))
+    lines.append("dispatchh %d %s %s" % (10 ** 6, hx("uusdc"), hx("{\"orbiter\":{\"pre_actions\":[{\"id\":7}],\"forwarding\":" + _json.dumps(int_fwd(U[1])) + "}}")))
     for _ in range(n):
         num, den, dn = r.choice(rules)
         lines.append("swapctl %d %d %s" % (num, den, hx(dn)))
@@ -1182,6 +1249,15 @@ def c06_oracle(steps):
         if s.op == "swapctl" and s.impl_raw == "ok":
             f = s.line.split(" ")
             rule = (int(f[1]), int(f[2]), unhx(f[3]).decode())
+        if s.op == "dispatchh":
+            try:
+                doc = _json.loads(unhx(s.line.split(" ")[3]).decode())
+                ids = [a.get("id") for a in (doc.get("orbiter") or {}).get("pre_actions") or [] if isinstance(a, dict)]
+            except Exception:
+                continue
+            if len(set(ids)) != len(ids) and s.impl.get("res") == "ok":
+                out.append((s.i, "duplicate: the dispatcher executed a payload repeating an action identifier: %s" % ids))
+            continue
         if s.op != "recvh":
             continue
         p = packet_of(s.line)
@@ -1223,7 +1299,8 @@ def c06_oracle(steps):
         bridge = [x for x in reqs if not x.startswith("swap:")]
         if len(bridge) == 1:
             b = bridge[0]
-            ok = ("amount=%d:" % amt in b and ("burn=%s" % hx(dn)) in b) or ("coins=%s=%d" % (hx(dn), amt)) in b
+            ok = ("amount=%d:" % amt in b and ("burn=%s" % hx(dn)) in b) or ("coins=%s=%d" % (hx(dn), amt)) in b or \
+                (b.startswith("warp.RemoteTransfer:") and (":amount=%d:" % amt) in b)
             if not ok:
                 out.append((s.i, "final-coin: forwarded %s, the last action left %d %s" % (b[-120:], amt, dn)))
         delta = parse_delta(s.impl.get("bal"))
@@ -1290,6 +1367,21 @@ def c07_lines(r, n):
         for dn in denoms[:4]:
             lines.append(pkt_line("withoutmw", ftpd(dn, 7, rc, goodmemo)))
             lines.append(pkt_line("recv", ftpd(dn, 7, rc, goodmemo)))
+    # every pause that names the IBC protocol or the channels in use: none of the orbiter's pause state concerns foreign traffic
+    lines.append(msg_line("PauseProtocol", AUTHORITY, hx("PROTOCOL_IBC")))
+    lines.append(msg_line("PauseCrossChains", AUTHORITY, hx("PROTOCOL_IBC"), hx("channel-0"), hx("channel-1"), hx("channel-7")))
+    for p_ in ("PROTOCOL_HYPERLANE", "PROTOCOL_INTERNAL"):
+        lines.append(msg_line("PauseProtocol", AUTHORITY, hx(p_)))
+    lines.append(msg_line("PauseAction", AUTHORITY, hx("ACTION_SWAP")))
+    for rc in recvs[:4]:
+        for dn in denoms[:4]:
+            for dc in ("channel-0", "channel-1"):
+                lines.append(pkt_line("withoutmw", ftpd(dn, 7, rc, goodmemo), dst_chan=dc))
+                lines.append(pkt_line("withoutmw", ftpd(dn, 7, rc, ""), dst_chan=dc))
+    for b in [b"", b"null", b"{}", b"not json"]:
+        lines.append(pkt_line("withoutmw", b))
+    lines.append(msg_line("UnpauseProtocol", AUTHORITY, hx("PROTOCOL_IBC")))
+    lines.append(pkt_line("withoutmw", ftpd("uatom", 7, U[0], goodmemo)))
     # orbiter-addressed ones (no constraint, classification only)
     lines.append(pkt_line("withoutmw", ftpd("transfer/channel-7/uusdc", 7, ORB, goodmemo)))
     lines.append(pkt_line("withoutmw", ftpd("transfer/channel-7/uusdc", 7, ORB.upper(), goodmemo)))
@@ -1533,6 +1625,19 @@ def pause_history(r, n, toks, actions_focus=False):
     lines = []
     cps = {"PROTOCOL_CCTP": ["0", "1", "5", "7", "01", "4294967295"], "PROTOCOL_HYPERLANE": ["1", "2", "9"], "PROTOCOL_INTERNAL": ["noble", "x", "a:b"], "PROTOCOL_IBC": ["channel-0", "channel-9"]}
     tok = toks[0][0]
+    # identifiers are names: a number, in range or wrapping around 2^32, never names a protocol or an action
+    odd_ids = ["1", "2", "3", "0", "01", " 1", "+1", "4294967297", "4294967298", "-4294967295", "8589934593", "1.0", "action_fee", "Action_Fee", "FEE", "protocol_cctp", "CCTP"]
+    for x in odd_ids:
+        lines.append(msg_line("PauseAction", AUTHORITY, hx(x)))
+        lines.append("query IsActionPaused " + hx(x))
+        lines.append(msg_line("PauseProtocol", AUTHORITY, hx(x)))
+        lines.append("query IsProtocolPaused " + hx(x))
+        lines.append(msg_line("PauseCrossChains", AUTHORITY, hx(x), hx("1")))
+        lines.append("query IsCrossChainPaused %s %s" % (hx(x), hx("1")))
+        lines.append(msg_line("UnpauseAction", AUTHORITY, hx(x)))
+    lines.append("query PausedActions")
+    lines.append("query PausedProtocols")
+    lines.append(orb_pkt("recv", 10 ** 6, int_fwd(U[1]), [fee_action([(U[4], "b", 100)])]))
     for _ in range(n):
         k = r.below(100)
         if k < 40:
@@ -1604,6 +1709,8 @@ class C08(Base):
                 lines += pause_targeted(toks)
             lines += pause_history(r, self.n(tier, 200, 800), toks)
             out.append(Stream("S3-pause-history-%d" % h, lines, fields=f, oracle=pause_oracle))
+        _, toks = scen.base_setup()
+        out.append(Stream("S3-dropped-branches", dry_lines(Rng(seed * 1000 + 108), toks, self.n(tier, 80, 300))))
         return out
 
 
@@ -1647,6 +1754,14 @@ def c10_lines(r, n):
         for b in bs:
             for sg in signers:
                 lines.append(msg_line(rpc, sg, *b))
+    # the one RPC that reaches a bridge, through the recording message server: a foreign signer's request never gets there
+    def be(n_, k_):
+        return n_.to_bytes(k_, "big")
+    body = be(0, 4) + b"\x11" * 32 + b"\x22" * 32 + be(12345, 32) + b"\x33" * 32
+    orig = be(0, 4) + be(4, 4) + be(0, 4) + be(7, 8) + b"\x44" * 32 + b"\x55" * 32 + b"\x66" * 32 + body
+    for sg in signers + [AUTHORITY]:
+        lines.append("msgh ReplaceDepositForBurn %s %s %s %s %s" % (hx(sg), hx(orig), hx(b"\x02" * 65), hx(b"\x03" * 32), hx(b"\x04" * 32)))
+        lines.append("msgh ReplaceDepositForBurn %s %s %s %s %s" % (hx(sg), hx(b"\x01" * 10), hx(b"\x02" * 65), "-", "-"))
     # the authority with valid content succeeds
     lines += [msg_line("UnpauseProtocol", AUTHORITY, hx("PROTOCOL_CCTP")), msg_line("UnpauseAction", AUTHORITY, hx("ACTION_FEE")),
               msg_line("UnpauseCrossChains", AUTHORITY, hx("PROTOCOL_INTERNAL"), hx("noble")), msg_line("UpdateParams", AUTHORITY, "5"),
@@ -1672,6 +1787,14 @@ def c10_oracle(steps):
                     out.append((s.i, "unauthorised-changed-state: %s signed by %r changed the module state" % (f[1], signer)))
                 if s.impl.get("req", "-") != "-":
                     out.append((s.i, "unauthorised-reached-bridge: %s signed by %r reached a bridge" % (f[1], signer)))
+        if s.op == "msgh":
+            f = s.line.split(" ")
+            signer = unhx(f[2]).decode("utf-8", "replace")
+            if signer != AUTHORITY:
+                if s.impl.get("res") != "err":
+                    out.append((s.i, "unauthorised-accepted: %s signed by %r returned %s" % (f[1], signer, s.impl.get("res"))))
+                if s.impl.get("hreq", "-") != "-":
+                    out.append((s.i, "unauthorised-reached-bridge: %s signed by %r reached the bridge: %s" % (f[1], signer, s.impl.get("hreq")[:80])))
         if s.op == "msgany":
             signer = unhx(s.line.split(" ")[2]).decode("utf-8", "replace")
             if signer != AUTHORITY and (s.impl.get("res") not in ("err",) or s.impl.get("unchanged") != "true"):
@@ -2025,11 +2148,12 @@ class C16(Base):
 
     def streams(self, tier, seed):
         r = Rng(seed * 1000 + 16)
-        f = {"pure": ["_"], "recv": ["ack", "bal", "mv"], "recvh": ["ack", "bal", "hreq", "st"]}
+        f = {"pure": ["_"], "recv": ["ack", "bal", "mv"], "recvh": ["ack", "bal", "hreq", "st"], "dispatchh": ["res", "hreq", "bal", "st"]}
         _, toks = scen.base_setup()
         f2 = {"recv": ["ack", "bal", "req", "mv", "st"], "recvh": ["ack", "bal", "hreq", "st"]}
         return [Stream("S1+S3-denominations-beside-ICS20", c16_lines(r, self.n(tier, 200, 2000)), fields=f, oracle=c16_oracle),
-                Stream("S3-credited-coin-on-every-route", c16_route_lines(r.fork(2), toks), fields=f2, oracle=c16_oracle)]
+                Stream("S3-credited-coin-on-every-route", c16_route_lines(r.fork(2), toks), fields=f2, oracle=c16_oracle),
+                Stream("S3-dropped-branches", dry_lines(Rng(seed * 1000 + 116), toks, self.n(tier, 60, 300)))]
 
 
 # ----------------------------------------------------------------------------------------------- C18
@@ -2128,7 +2252,9 @@ class C18(Base):
     def streams(self, tier, seed):
         r = Rng(seed * 1000 + 18)
         f = {"recv": ["ack", "bal"], "msg": ["res", "st"], "msgdry": ["res", "st"], "query": ["res", "out"], "reimport": ["valid", "init", "same", "st"]}
-        return [Stream("S3-parameter-history", c18_lines(r, self.n(tier, 25, 250)), fields=f, oracle=c18_oracle)]
+        _, toks = scen.base_setup()
+        return [Stream("S3-parameter-history", c18_lines(r, self.n(tier, 25, 250)), fields=f, oracle=c18_oracle),
+                Stream("S3-dropped-branches", dry_lines(Rng(seed * 1000 + 118), toks, self.n(tier, 60, 300)))]
 
 
 # ----------------------------------------------------------------------------------------------- C13
